@@ -40,6 +40,13 @@ fn dispatch(line: &str) -> String {
     let r = std::panic::catch_unwind(|| match ws[0] {
         "span" => ops_span::handle(args),
         "eval" => ops_eval::handle(args),
+        "evalbig" => ops_eval::handle_big(args),
+        "diagbig" => ops_eval::big_source(args).and_then(|src| {
+            let h = util::hex_enc(&src);
+            let mut a: Vec<&str> = vec![&h];
+            a.extend_from_slice(&args[3..]);
+            ops_diag::handle(&a)
+        }),
         "hist" => ops_hist::handle(args),
         "diag" => ops_diag::handle(args),
         "sort" => ops_sort::handle(args),
